@@ -381,7 +381,7 @@ def layout(rng, first, limit, nfiles, style=None, maxlen_sectors=None):
                 for s2, l2 in ext:
                     if l2:
                         hi = max(hi, s2 + (l2 + SECTOR - 1) // SECTOR)
-                nxt = min(hi, limit - 1) if limit - 1 >= first else first
+                nxt = min(hi, limit)      # on a full disc an empty file starts just beyond the last sector
             fixed.append((nxt, 0))
         else:
             fixed.append((s, ln))
